@@ -6,6 +6,9 @@ modes:  rename   every local gets a new name
         ifswap   `if c: A else: B`  ->  `if not c: B else: A`
         cmpflip  `a < b` -> `b > a`, `a == b` -> `b == a` (operands without effects only)
         rettemp  `return e` -> `rv_ = e; return rv_`
+        augexpand `x <<= 1` -> `x = x << 1`
+        elsify   `if c: return x; rest` -> `if c: return x else: rest`
+        kwargify positional arguments of same-file callees -> keyword arguments
 usage: refactor_sweep.py <mode> [name filter ...]"""
 import ast, copy, json, os, sys, multiprocessing, textwrap
 sys.path.insert(0, os.path.dirname(os.path.dirname(os.path.abspath(__file__))))
@@ -123,7 +126,86 @@ def t_rettemp(fn):
     return new if hit[0] else None
 
 
-MODES = {"rename": t_rename, "ifswap": t_ifswap, "cmpflip": t_cmpflip, "rettemp": t_rettemp}
+def t_augexpand(fn):
+    """`x <<= 1` -> `x = x << 1` for integer-looking updates (shift, or +/- an int constant)"""
+    hit = [0]
+
+    class R(ast.NodeTransformer):
+        def visit_AugAssign(self, n):
+            if isinstance(n.target, ast.Name) and (isinstance(n.op, (ast.LShift, ast.RShift)) or
+                                                   (isinstance(n.op, (ast.Add, ast.Sub)) and isinstance(n.value, ast.Constant) and isinstance(n.value.value, int))):
+                hit[0] += 1
+                return ast.copy_location(ast.Assign(targets=[ast.Name(id=n.target.id, ctx=ast.Store())],
+                                                    value=ast.BinOp(left=ast.Name(id=n.target.id, ctx=ast.Load()), op=n.op, right=n.value)), n)
+            return n
+    new = R().visit(copy.deepcopy(fn))
+    return new if hit[0] else None
+
+
+def _ends_abrupt(body):
+    return bool(body) and isinstance(body[-1], (ast.Return, ast.Raise, ast.Continue, ast.Break))
+
+
+def t_elsify(fn):
+    """`if c: return x` followed by more statements -> `if c: return x else: <the rest>`"""
+    hit = [0]
+
+    def fix(block):
+        out = []
+        i = 0
+        while i < len(block):
+            s = block[i]
+            if isinstance(s, ast.If) and not s.orelse and _ends_abrupt(s.body) and i + 1 < len(block):
+                hit[0] += 1
+                s.orelse = fix(block[i + 1:])
+                out.append(s)
+                return out
+            out.append(s)
+            i += 1
+        return out
+
+    new = copy.deepcopy(fn)
+    for n in ast.walk(new):
+        for fld in ("body", "orelse", "finalbody"):
+            blk = getattr(n, fld, None)
+            if isinstance(blk, list) and blk and isinstance(blk[0], ast.stmt):
+                setattr(n, fld, fix(blk))
+    return new if hit[0] else None
+
+
+SIGS = {}
+
+
+def t_kwargify(fn):
+    """positional arguments of calls to functions / methods defined in the same file -> keyword arguments"""
+    hit = [0]
+
+    class R(ast.NodeTransformer):
+        def visit_Call(self, n):
+            self.generic_visit(n)
+            name = None
+            skip = 0
+            if isinstance(n.func, ast.Attribute) and isinstance(n.func.value, ast.Name) and n.func.value.id in ("self", "cls"):
+                name, skip = n.func.attr, 1
+            elif isinstance(n.func, ast.Name):
+                name = n.func.id
+            sig = SIGS.get(name)
+            if sig is None or any(isinstance(a, ast.Starred) for a in n.args) or not n.args:
+                return n
+            params, is_method = sig
+            if is_method != bool(skip):
+                return n
+            params = params[skip:]
+            if len(n.args) > len(params):
+                return n
+            hit[0] += 1
+            kws = [ast.keyword(arg=params[i], value=a) for i, a in enumerate(n.args)]
+            return ast.copy_location(ast.Call(func=n.func, args=[], keywords=kws + n.keywords), n)
+    new = R().visit(copy.deepcopy(fn))
+    return new if hit[0] else None
+
+
+MODES = {"augexpand": t_augexpand, "elsify": t_elsify, "kwargify": t_kwargify, "rename": t_rename, "ifswap": t_ifswap, "cmpflip": t_cmpflip, "rettemp": t_rettemp}
 
 
 def splice(src, fn, new):
@@ -165,6 +247,19 @@ def main(mode, only):
         if "/tools/" in rel:
             continue
         tree = ast.parse(src)
+        SIGS.clear()
+        counts = {}
+        for n in ast.walk(tree):
+            if isinstance(n, ast.FunctionDef):
+                counts[n.name] = counts.get(n.name, 0) + 1
+        for top in tree.body:
+            if isinstance(top, ast.FunctionDef) and counts[top.name] == 1 and not top.args.vararg and not top.args.posonlyargs:
+                SIGS[top.name] = ([a.arg for a in top.args.args], False)
+            if isinstance(top, ast.ClassDef):
+                for m in top.body:
+                    if isinstance(m, ast.FunctionDef) and counts[m.name] == 1 and not m.args.vararg and not m.args.posonlyargs \
+                            and not any(ast.unparse(d) in ("staticmethod", "property") for d in m.decorator_list):
+                        SIGS[m.name] = ([a.arg for a in m.args.args], True)
         # innermost functions only are spliced (outer ones would overlap)
         for n in ast.walk(tree):
             if isinstance(n, ast.FunctionDef):
